@@ -30,6 +30,7 @@ void runSlot(const Scn &scn, Out &out);
 void runLauth(const Scn &scn, Out &out);
 void runProxy(const Scn &scn, Out &out);
 void runLife(const Scn &scn, Out &out);
+void runTls(const Scn &scn, Out &out);
 
 QByteArray errorPage(int code, const QByteArray &reason, bool nullReason);
 // one event-loop turn: timers and queued calls, then deferred deletes
